@@ -1,6 +1,7 @@
 import PhononModel.Lemmas.DynMatSym
 import PhononModel.Lemmas.DynMatFourier
 import PhononModel.Lemmas.DynMatRot
+import PhononModel.Lemmas.DynMatRotTable
 import PhononModel.Lemmas.DynMatExample
 import Mathlib.Tactic.FinCases
 import Mathlib.Tactic.NormNum
@@ -150,13 +151,13 @@ theorem dynmat_G_shift {V : Type} [AddCommGroup V] (T : DTables np nf ns nsv) (s
 
 /-! ### point-group operations -/
 
-/-- (6, partial) **q → Rq for force constants with the crystal's symmetry** — proved where the computed matrix is
+/-- (6') **q → Rq from the symmetry of the infinite crystal** (no table certificate) where the computed matrix is
 the lattice Fourier sum (C02): interaction range short (`ShortRange`) or both q and Rq commensurate.
 `g` is a space-group operation of the infinite crystal (`LatticeModel.Symmetry`: linear part `ρ` on displacement
 vectors, sublattice permutation `π`, Cartesian rotation `Q`, `Ψ` and its support invariant), the character of `Rq`
 is `e' ∘ ρ = e`, symmetry-equivalent atoms have equal masses.  Then `D(Rq) = Γ D(q) Γᵀ` with the real orthogonal
 `Γ = (permute atoms) ⊗ Q`, hence equal characteristic polynomials. -/
-theorem dynmat_rotation_partial {V : Type} [AddCommGroup V] {T : DTables np nf ns nsv}
+theorem dynmat_rotation_fourier {V : Type} [AddCommGroup V] {T : DTables np nf ns nsv}
     (L : LatticeModel V R T) (hL : L.PermSym) (g : L.Symmetry) (e e' : V → Cx R)
     (he : IsUnitaryChar e) (he' : IsUnitaryChar e') (hrot : ∀ r, e' (g.ρ r) = e r)
     (s : Fin np → R) (hs : ∀ i, s (g.π i) = s i)
@@ -178,25 +179,41 @@ theorem dynmat_rotation_partial {V : Type} [AddCommGroup V] {T : DTables np nf n
   rw [hD, hD']
   exact ⟨fourier_rotation_matrix L g e e' hrot s hs, g.gamma_orth, fourier_rotation_charpoly L g e e' hrot s hs⟩
 
-/-- The full statement (any range, any q): needs, instead of `hcond`, that the supercell lattice and the
-length function are invariant under the operation and that the table stores exactly the minimal-length images.
-Not proved; this clause of the property is carried by the oracle of `./check C03` (pairs `(q, Rq)` for every
-reciprocal operation). -/
-def dynmat_rotation_FullStatement : Prop :=
-  ∀ (R : Type) [Field R] [CharZero R] (V : Type) [AddCommGroup V] (np nf ns nsv : Nat)
-    (T : DTables np nf ns nsv) (L : LatticeModel V R T), L.PermSym → ∀ (g : L.Symmetry) (e e' : V → Cx R),
-    IsUnitaryChar e → IsUnitaryChar e' → (∀ r, e' (g.ρ r) = e r) →
-    ∀ (s : Fin np → R), (∀ i, s (g.π i) = s i) →
-    ∀ (fc : Fin nf → Fin ns → Fin 3 → Fin 3 → R), (∀ i k a b, fc (T.p2s i) k a b = L.superFC i k a b) →
-    -- the supercell lattice is invariant
-    (∀ n, n ∈ L.S ↔ g.ρ n ∈ L.S) →
-    -- an invariant length function for which the table is the complete list of minimal images, without repetition
-    ∀ (N : V → R) [LinearOrder R] [IsStrictOrderedRing R], (∀ v, N (g.ρ v) = N v) →
-    (∀ k i l, ∀ n ∈ L.S, N (L.sv (T.svIdx k i l)) ≤ N (L.sv (T.svIdx k i l) + n)) →
-    (∀ k i v, v - (L.xs k - L.x i) ∈ L.S → (∀ n ∈ L.S, N v ≤ N (v + n)) → ∃ l, L.sv (T.svIdx k i l) = v) →
-    (∀ k i, Function.Injective fun l => L.sv (T.svIdx k i l)) →
-    (dynmatC T (fun l => e' (L.sv l)) (fun i j => s i * s j) fc).toMatrix.charpoly
-      = (dynmatC T (fun l => e (L.sv l)) (fun i j => s i * s j) fc).toMatrix.charpoly
+/-- (6) **q → Rq, any q, any interaction range — certificate form.**  `M` are the index maps of a space-group
+operation that maps the supercell onto itself (`pi`: primitive atoms, `kap i`: supercell atoms after bringing the
+image of primitive atom `i` back to primitive atom `pi i`, `sig`: stored shortest vectors); `svecsInvariantOk` is the
+executable certificate, evaluated by `./check C02`/`C03` on the implementation's tables for every (crystal, operation),
+that the stored vectors of pair `(k,i)` are mapped bijectively onto the stored vectors of pair `(kap i k, pi i)`.
+The force constants have the symmetry of the operation (`hfc`, Cartesian rotation `Q` orthogonal), equivalent atoms
+have equal masses, and the phase of `Rq` at the image of a stored vector is the phase of `q` at the vector (`hph`).
+Then `D(Rq) = Γ D(q) Γᵀ`, `Γ = (permute atoms) ⊗ Q` real orthogonal, hence equal characteristic polynomials. -/
+theorem dynmat_rotation (T : DTables np nf ns nsv) (M : SymMaps np ns nsv) (hcert : svecsInvariantOk T M = true)
+    (Q : Matrix (Fin 3) (Fin 3) R) (orth : Qᵀ * Q = 1) (fc : Fin nf → Fin ns → Fin 3 → Fin 3 → R)
+    (hfc : ∀ i k a b, fc (T.p2s (M.pi i)) (M.kap i k) a b = ∑ a', ∑ b', Q a a' * fc (T.p2s i) k a' b' * Q b b')
+    (mm : Fin np → Fin np → R) (hmm : ∀ i j, mm (M.pi i) (M.pi j) = mm i j)
+    (ph ph' : Fin nsv → Cx R) (hph : ∀ x, ph' (M.sig x) = ph x) :
+    let π := (svecsInvariantOk_sound T M hcert).perm
+    let D := dynmatC T ph mm fc
+    let D' := dynmatC T ph' mm fc
+    D'.toMatrix = rotGamma π Q * D.toMatrix * (rotGamma π Q)ᵀ ∧ (rotGamma π Q)ᵀ * rotGamma π Q = 1 ∧
+      D'.toMatrix.charpoly = D.toMatrix.charpoly := by
+  intro π D D'
+  have hent := fun i a j b => dynmatC_rot (svecsInvariantOk_sound T M hcert) Q fc hfc mm hmm ph ph' hph i a j b
+  exact ⟨rot_matrix_of_entries π Q D D' hent, rotGamma_orth π Q orth, rot_charpoly π Q orth D D' hent⟩
+
+/-- … with the phases given by characters: the stored vector with index `sig x` is the image `ρ (sv x)` and
+`e' ∘ ρ = e` (`e'` is the character of `Rq`). -/
+theorem dynmat_rotation_char {V : Type} (T : DTables np nf ns nsv) (M : SymMaps np ns nsv)
+    (hcert : svecsInvariantOk T M = true)
+    (Q : Matrix (Fin 3) (Fin 3) R) (orth : Qᵀ * Q = 1) (fc : Fin nf → Fin ns → Fin 3 → Fin 3 → R)
+    (hfc : ∀ i k a b, fc (T.p2s (M.pi i)) (M.kap i k) a b = ∑ a', ∑ b', Q a a' * fc (T.p2s i) k a' b' * Q b b')
+    (s : Fin np → R) (hs : ∀ i, s (M.pi i) = s i)
+    (sv : Fin nsv → V) (ρ : V → V) (hρ : ∀ x, sv (M.sig x) = ρ (sv x))
+    (e e' : V → Cx R) (he : ∀ v, e' (ρ v) = e v) :
+    (dynmatC T (fun l => e' (sv l)) (fun i j => s i * s j) fc).toMatrix.charpoly
+      = (dynmatC T (fun l => e (sv l)) (fun i j => s i * s j) fc).toMatrix.charpoly :=
+  (dynmat_rotation T M hcert Q orth fc hfc _ (fun i j => by rw [hs, hs]) _ _
+    (fun x => by rw [hρ, he])).2.2
 
 /-! ### non-vacuity -/
 
@@ -227,6 +244,18 @@ example : Periodic Cex Φex ∧ PermSymmetric Φex ∧ RowSumZero Φex := by
   · intro i j k l; fin_cases i <;> fin_cases j <;> fin_cases k <;> fin_cases l <;> simp [Φex]
   · intro i k l; fin_cases i <;> fin_cases k <;> fin_cases l <;> simp [Φex, Fin.sum_univ_two]
 
+/-- inversion of the chain as index maps on `Tex`: atoms fixed, the two images `±1` of the pair (1, 0) exchanged;
+the certificate holds, and it fails for maps that do not respect the table -/
+def Mex : SymMaps 1 2 3 where
+  pi := fun i => i
+  pinv := fun i => i
+  kap := fun _ k => k
+  kinv := fun _ k => k
+  sig := fun x => if x = 1 then 2 else if x = 2 then 1 else x
+  sinv := fun x => if x = 1 then 2 else if x = 2 then 1 else x
+example : svecsInvariantOk Tex Mex = true := by decide
+example : svecsInvariantOk Tex { Mex with sig := fun x => if x = 0 then 1 else if x = 1 then 0 else x } = false := by decide
+
 /-- a unitary character (the zone-boundary point of the chain) and a symmetry operation (inversion) exist -/
 example : IsUnitaryChar Chain.eZB := Chain.eZB_spec.1
 example : Nonempty Chain.Lch.Symmetry := ⟨Chain.chainInversion⟩
@@ -244,4 +273,6 @@ end PhononModel.C03
 #print axioms PhononModel.C03.acoustic_kernel
 #print axioms PhononModel.C03.acoustic_vectors_independent
 #print axioms PhononModel.C03.dynmat_G_shift
-#print axioms PhononModel.C03.dynmat_rotation_partial
+#print axioms PhononModel.C03.dynmat_rotation
+#print axioms PhononModel.C03.dynmat_rotation_char
+#print axioms PhononModel.C03.dynmat_rotation_fourier
